@@ -391,6 +391,12 @@ func (sa *Safe) stdlib(fr *frame, st *State, x *ssa.Call, callee *ssa.Function, 
 	case "strings.Repeat":
 		need("safe.stdlib-pre", linConst(0), args[1].Lin, "strings.Repeat panics for a negative count")
 		return one(sa.freshM(fr, st, types.Typ[types.String], desc, nilMaybe))
+	case "strings.Index", "strings.IndexByte", "strings.LastIndex", "strings.IndexRune", "strings.IndexAny", "bytes.Index", "bytes.IndexByte":
+		v := sa.boundedAtom(fr, st, types.Typ[types.Int], desc, Itv{-1, posInf})
+		if args[0].Len != nil {
+			st.assume(v.Lin.add(args[0].Len, -1).addConst(1)) // result <= len - 1
+		}
+		return one(v)
 	case "strings.Split":
 		ln := sa.boundedAtom(fr, st, types.Typ[types.Int], "len("+desc+")", Itv{1, posInf})
 		return one(sa.sliceResult(fr, st, sig.Results().At(0).Type(), desc, ln.Lin, true))
@@ -441,7 +447,7 @@ func safePureCallee(f *ssa.Function) bool {
 		return true
 	case "strings":
 		switch f.Name() {
-		case "Repeat", "Split": // handled
+		case "Repeat", "Split", "Index", "IndexByte", "LastIndex", "IndexRune", "IndexAny": // handled
 			return false
 		}
 		return true
